@@ -103,6 +103,23 @@ pub fn run_chaos(s: &Streams) -> CaseOut {
                 ],
             ),
         };
+        // (in two cases of five the statement stands inside a block that runs exactly once - the body of a `while`
+        // whose variable is cleared first, of a `loop(lz, 1)`, or of one inside the other: an error raised inside a
+        // block surfaces like one at the top level)
+        let stmts: Vec<Stmt> = match dch.upto(10) {
+            0 | 1 => {
+                let mut body = vec![Stmt::Let("wz".into(), Expr::lit(0))];
+                body.extend(stmts);
+                vec![Stmt::Let("wz".into(), Expr::lit(1)), Stmt::While(Expr::var("wz"), body)]
+            }
+            2 => vec![Stmt::Loop("lz".into(), Expr::lit(1), stmts)],
+            3 => {
+                let mut body = vec![Stmt::Let("wz".into(), Expr::lit(0))];
+                body.extend(stmts);
+                vec![Stmt::Loop("lz".into(), Expr::lit(1), vec![Stmt::Let("wz".into(), Expr::lit(1)), Stmt::While(Expr::var("wz"), body)])]
+            }
+            _ => stmts,
+        };
         for (k, st) in stmts.into_iter().enumerate() {
             built.prog.stmts.insert(at + k, st);
         }
@@ -265,7 +282,7 @@ pub fn run_chaos(s: &Streams) -> CaseOut {
             out.fail(
                 "c10:hazard-not-an-error-item",
                 format!(
-                    "the program executes a top-level `let hz = ...` that cannot be evaluated ({kind}) unconditionally, yet the run reached the end of iteration after {} rows without any error item",
+                    "the program executes a `let hz = ...` that cannot be evaluated ({kind}) unconditionally (at the top level, or inside a block that runs exactly once), yet the run reached the end of iteration after {} rows without any error item",
                     real.items.len()
                 ),
             );
@@ -300,7 +317,7 @@ impl Property for C10 {
         "C10"
     }
     fn rule(&self) -> &'static str {
-        "profile `chaos`: everything the other profiles avoid - unguarded / and %, random with bounds {-1,0,1,2,...}, signExt, variables bound only on paths that do not execute (while(0), loops with bound <= 0), counter rebinding incl. to i64::MAX, 64-bit boundary arithmetic and shift counts, widths 1..64, wild defaults, shared input/expected columns, X and C anywhere (one case in forty: 61-67 extra inputs and rows with X in every input column), virtual signals using random, drivers answering Z/X and returning errors at any call, seeds {0,1,MAX,random}; each case enables a random subset of the hazard sources; kept only if the crate accepts it at load time; one case in six is a deliberate misfit between program and signal list (a C entry in an expected-only column, a C column that is an output, edits of the list as in C11) - refused by a correct binding and then discarded, run like any other accepted test if it is accepted all the same. Run through try_iter, next() to the first error item or the end (+1 call), vars() after each row, and try_iter_static. Oracle: (1) no panic anywhere; (2) in half of the cases a statement that cannot be evaluated whatever the values are - division / remainder by literal zero, signExt, a variable whose only `let` sits in a while(0) body or in a loop with bound 0, each also as the right operand of `0 & ...` / `0 * ...` (only ite is lazy) - is planted at a random top-level position, where it is executed unconditionally: a run that reaches the end of iteration must then contain an error item. Nothing is asserted about values. The reference interpreter (replaying the crate's own draw log) only classifies which hazards were reached, for the histogram. Non-trivial: a hazardous evaluation was reached or planted, or a width >= 63 is used, or >= 3 rows ran; distinct by source + signals + driver + seed. Thorough adds libFuzzer target run_structured on the same decoder."
+        "profile `chaos`: everything the other profiles avoid - unguarded / and %, random with bounds {-1,0,1,2,...}, signExt, variables bound only on paths that do not execute (while(0), loops with bound <= 0), counter rebinding incl. to i64::MAX, 64-bit boundary arithmetic and shift counts, widths 1..64, wild defaults, shared input/expected columns, X and C anywhere (one case in forty: 61-67 extra inputs and rows with X in every input column), virtual signals using random, drivers answering Z/X and returning errors at any call, seeds {0,1,MAX,random}; each case enables a random subset of the hazard sources; kept only if the crate accepts it at load time; one case in six is a deliberate misfit between program and signal list (a C entry in an expected-only column, a C column that is an output, edits of the list as in C11) - refused by a correct binding and then discarded, run like any other accepted test if it is accepted all the same. Run through try_iter, next() to the first error item or the end (+1 call), vars() after each row, and try_iter_static. Oracle: (1) no panic anywhere; (2) in half of the cases a statement that cannot be evaluated whatever the values are - division / remainder by literal zero, signExt, a variable whose only `let` sits in a while(0) body or in a loop with bound 0, each also as the right operand of `0 & ...` / `0 * ...` (only ite is lazy) - is planted at a random top-level position (in two cases of five inside a `while` body / a `loop(lz, 1)` body / both, that runs exactly once), where it is executed unconditionally: a run that reaches the end of iteration must then contain an error item. Nothing is asserted about values. The reference interpreter (replaying the crate's own draw log) only classifies which hazards were reached, for the histogram. Non-trivial: a hazardous evaluation was reached or planted, or a width >= 63 is used, or >= 3 rows ran; distinct by source + signals + driver + seed. Thorough adds libFuzzer target run_structured on the same decoder."
     }
     fn cases(&self, tier: Tier) -> u64 {
         match tier {
